@@ -28,6 +28,8 @@ type Node struct {
 	Close  Span
 	Body   Span
 	Depth  int
+	// Slot: multi-line call - offset of the empty line behind the last argument
+	Slot int
 }
 
 type Rendered struct {
@@ -321,6 +323,23 @@ func (r *renderer) expr(e *Expr, parent, depth int) {
 		r.expr(e.A[1], n.ID, depth)
 		r.b.WriteString("]")
 	case "call":
+		if e.Multi && len(e.A) > 0 && e.Flag != "expand" {
+			// one argument per line, trailing comma, then an empty line: the
+			// place where the next argument is about to be typed
+			r.b.WriteString(e.S)
+			r.b.WriteString("(\n")
+			for _, a := range e.A {
+				r.indent(depth + 1)
+				r.expr(a, n.ID, depth+1)
+				r.b.WriteString(",\n")
+			}
+			r.indent(depth + 1)
+			n.Slot = r.off()
+			r.b.WriteString("\n")
+			r.indent(depth)
+			r.b.WriteString(")")
+			break
+		}
 		r.b.WriteString(e.S)
 		r.b.WriteString("(")
 		for i, a := range e.A {
